@@ -73,6 +73,8 @@ def tick_program(rng):
     """tickers with dyadic periods, bodies shorter / equal / longer than the period, various start times"""
     start = rng.choice([-10, -10, -2.5, 0, 0, 3, 7.5])
     per = [0, 0.5, 1, 1.5, 2, 2.5, 5, -1]
+    if rng.random() < 0.1:
+        per = per + [INF, INF]          # a period of infinity: the first tick comes at the end of time
     roots = []
     for _ in range(rng.randint(1, 4)):
         ops = []
